@@ -73,8 +73,10 @@ def build_and_verify(crate, filters, jobs=None, harness_timeout=600, wall_timeou
         covers = [c for c in checks if c.get("status") in ("Satisfied", "Unsatisfiable") or c.get("category") == "cover"]
         r.covers = len(covers)
         vac = [c for c in covers if c.get("status") != "Satisfied"]
-        if vac:
-            # vacuity guard: a `kani::cover!` that cannot be reached means the assumptions exclude everything
+        if vac and r_["status"] == "Success":
+            # vacuity guard: a `kani::cover!` that cannot be reached although nothing failed means the
+            # assumptions exclude everything (when an assertion fails on every path the cover behind it is
+            # unreachable too -- that case is a failure, handled below)
             r.status = "undecided"
             r.reason = "vacuous harness: cover not satisfiable: " + "; ".join((c.get("description") or "")[:80] for c in vac[:3])
         elif r_["status"] == "Success":
